@@ -39,7 +39,7 @@ def jobs(tier):
             out.append({"cfg": cfg, "hists": session_histories(), "oracles": ["selfdesc"],
                         "label": "sessions %d/%d %s" % (n, d, mode), "opts": {"regen": True}})
     # session start timestamps at realistic rates: first sample just before / on / after a whole second
-    for (n, d) in U.FP_RATES:
+    for (n, d) in U.FP_RATES + [(10**10, 1001)]:
         for T in (1500000000, 1700000000, 4102444799):
             base = -((-T * n) // d)  # first sample at or after second T
             for delta in (-3, -1, 0, 1):
@@ -49,7 +49,7 @@ def jobs(tier):
                     continue
                 cfg = dict(rf.Cfg(n=n, d=d, fc=fc, sc=3600, start=k0, cont=False))
                 out.append({"cfg": cfg, "hists": [[("w", 0, 2)]], "oracles": ["selfdesc"],
-                            "label": "session start %d/%d T=%d%+d" % (n, d, T, delta), "opts": {"regen": False}})
+                            "label": "session start %d/%d T=%d%+d" % (n, d, T, delta), "opts": {"regen": delta == 0}})
     return out
 
 
